@@ -73,7 +73,15 @@ def curve_cap(sizes):
     return p ** len(sizes)
 
 
-def rand_field(r, name, max_extent=4, data_mode='any', cfg_mode='any', sizes=None):
+def scalar_key(t, v):
+    """the mathematical value of a case-file scalar, for ordering (NaN -> None)"""
+    if t in ('f32', 'f64'):
+        x = bits_f(t, v)
+        return None if x != x else x
+    return v
+
+
+def rand_field(r, name, max_extent=4, data_mode='any', cfg_mode='any', sizes=None, ordered=False):
     """tokens for `new <slot>`: configurations outermost first, then the primitive's data.
     Extents are chosen so that the storage matches the layout (capacity of the outermost storage
     order layer)."""
@@ -93,6 +101,13 @@ def rand_field(r, name, max_extent=4, data_mode='any', cfg_mode='any', sizes=Non
         elif t == 'clamp':
             lo = [rand_scalar(r, k.tc, cfg_mode) for _ in range(k.n)]
             hi = [rand_scalar(r, k.tc, cfg_mode) for _ in range(k.n)]
+            if ordered:
+                for j in range(k.n):
+                    a, b = scalar_key(k.tc, lo[j]), scalar_key(k.tc, hi[j])
+                    if a is None or b is None:
+                        lo[j] = hi[j] = rand_scalar(r, k.tc, 'nice')
+                    elif b < a:
+                        lo[j], hi[j] = hi[j], lo[j]
             toks += lo + hi
         elif t == 'backup':
             toks += [rand_scalar(r, k.tc, cfg_mode) for _ in range(2 * k.n)] + [rand_scalar(r, k.tv, cfg_mode) for _ in range(k.m)]
@@ -108,7 +123,9 @@ def rand_field(r, name, max_extent=4, data_mode='any', cfg_mode='any', sizes=Non
 
 
 class StackRunner:
-    """builds the model driver and the harness shards for a set of stacks, runs case lines"""
+    """builds the model driver and the harness shards for a set of stacks, runs case lines.
+    Stacks the compiler rejects are localised with one -fsyntax-only pass per stack of the failing
+    shards (in parallel) and end up in self.failed; the shards are then rebuilt without them."""
 
     def __init__(self, chk, tag, names, configs=('dbg', 'rel'), conversions=(), shard_size=10, header='vh_stack.hpp'):
         self.chk = chk
@@ -120,28 +137,46 @@ class StackRunner:
         self.exes = {}
         self.failed = {}
         with core.Lock('harness'):
-            for cfg in configs:
-                exes, failed = stacks.build_stack_harness(tag, self.names, cfg, conversions=conversions, shard_size=shard_size, header=header)
-                self.exes[cfg] = exes
-                if failed and cfg == configs[0]:
-                    # localise: rebuild the failing shards one stack at a time
-                    for sh, log in failed:
-                        if len(sh) == 1 or conversions:
-                            for s in sh:
-                                self.failed[s] = log
-                            continue
-                        ex1, f1 = stacks.build_stack_harness(tag, sh, cfg, shard_size=1, header=header)
-                        exes.update(ex1)
-                        for sh1, log1 in f1:
-                            self.failed[sh1[0]] = log1
-                elif failed:
+            good = list(self.names)
+            convs = list(conversions)
+            exes, failed = stacks.build_stack_harness(tag, good, configs[0], conversions=convs, shard_size=shard_size, header=header)
+            if failed:
+                suspects = [s for sh, log in failed for s in sh]
+                if convs:
+                    # conversions tie stacks together: test each conversion pair as its own unit
+                    bad_pairs = []
+                    units = [(a, b) for a, b in convs if a in suspects or b in suspects]
+                    _, f1 = stacks.build_stack_harness(tag + 'x', [], 'syntax', conversions=units, shard_size=1, header=header, one_conv_per_shard=True)
+                    for sh, log in f1:
+                        for s in sh:
+                            self.failed.setdefault(s, log)
+                    single = [s for s in suspects if not any(s in u for u in units)]
+                else:
+                    single = suspects
+                if single:
+                    _, f1 = stacks.build_stack_harness(tag + 'x', single, 'syntax', shard_size=1, header=header)
+                    for sh, log in f1:
+                        self.failed[sh[0]] = log
+                if not self.failed:
+                    # the shard fails although every stack passes the syntax check alone: keep the shard's log
                     for sh, log in failed:
                         for s in sh:
-                            if s not in self.failed:
-                                ex1, f1 = stacks.build_stack_harness(tag, [s], cfg, shard_size=1, header=header)
-                                exes.update(ex1)
-                                for sh1, log1 in f1:
-                                    self.failed.setdefault(sh1[0], log1)
+                            self.failed[s] = log
+                good = [s for s in good if s not in self.failed]
+                convs = [(a, b) for a, b in convs if a not in self.failed and b not in self.failed]
+                exes, failed2 = stacks.build_stack_harness(tag, good, configs[0], conversions=convs, shard_size=shard_size, header=header)
+                for sh, log in failed2:
+                    for s in sh:
+                        self.failed.setdefault(s, log)
+                good = [s for s in good if s not in self.failed]
+            self.exes[configs[0]] = exes
+            for cfg in configs[1:]:
+                exes, failed = stacks.build_stack_harness(tag, good, cfg, conversions=convs, shard_size=shard_size, header=header)
+                self.exes[cfg] = exes
+                for sh, log in failed:
+                    for s in sh:
+                        self.failed.setdefault(s, f'[{cfg} build only] ' + log)
+        self.conversions = convs
 
     def run(self, lines):
         """lines: 'id stack op ...' ; returns (model answers, {config: impl answers})"""
@@ -177,10 +212,10 @@ def first_error(log):
 # ---------------------------------------------------------------------------------
 # the layer grammar: random well-kinded stacks
 # ---------------------------------------------------------------------------------
-def random_stack(r, max_depth=5, want=None):
+def random_stack(r, max_depth=5, want=None, prims=('array', 'array', 'array', 'constant', 'identity')):
     """a well-kinded stack drawn from the grammar; `want` optionally forces a layer to appear"""
     for _ in range(200):
-        kindp = r.choice(['array', 'array', 'array', 'constant', 'identity'])
+        kindp = r.choice(list(prims))
         layers = []
         if kindp == 'array':
             m = r.range(1, 4)
@@ -203,6 +238,12 @@ def random_stack(r, max_depth=5, want=None):
             m = r.range(1, 4)
             tv = r.choice(['f32', 'f64', 'i32'])
             prim = f'constant.{n}.{tc}.{m}.{tv}'
+        elif kindp == 'probe':
+            n = r.range(1, 4)
+            tc = r.choice(['f32', 'f64', 'u64', 'i32', 'u32'])
+            m = r.range(1, 4)
+            tv = r.choice(['f32', 'f64', 'i32'])
+            prim = f'probe.{n}.{tc}.{m}.{tv}'
         else:
             n = r.range(1, 4)
             tc = r.choice(['f32', 'f64', 'u64', 'i32', 'u32'])
